@@ -1,12 +1,12 @@
-// a2_polymodel.h -- boring reference models shared by C21 / C22 (author a2).
+// a2_polymodel.h -- boring reference models and helpers shared by C21 / C22 / C23 (author a2).
 //   PolyA      : polynomial in one coefficient symbol `a` over Q (std::map<int, mpq>)
 //   UM<K>      : univariate coefficient list  (std::map<unsigned, K>), schoolbook arithmetic
 //   MM<K>      : multivariate monomial dictionary over (x,y,z) (std::map<array<int,3>, K>)
 //   walk()     : independent tree walker  Basic -> MM<PolyA>   (Integer, Rational, Symbol x/y/z/a,
 //                Add, Mul, Pow with non-negative integer exponent); uses get_args() only
-//   guarded()  : run one hazardous operation in a forked grandchild with a wall limit and an
-//                address-space limit, so that a hang / crash / allocation bomb is one observed
-//                outcome of the case and not the death of the worker
+//   guarded()  : run one hazardous operation in a forked grandchild with a CPU-time limit (immune to
+//                machine load) and an address-space limit, so that a hang / crash / allocation bomb
+//                is one observed outcome of the case and not the death of the worker
 #ifndef A2_POLYMODEL_H
 #define A2_POLYMODEL_H
 #include "common.h"
